@@ -700,7 +700,8 @@ def prim_of(e):
     if isinstance(e, A.Label):
         return ["label", e.name]
     if isinstance(e, A.Goto):
-        return ["goto", e.label]
+        # a Goto whose expression is the constant True is unconditional (`Prim.jump`): `slide` never falls through it
+        return ["jump" if str(e.expression).strip() == "True" else "goto", e.label]
     if isinstance(e, A.ForkHead):
         return ["fork", e.fork_uid, list(e.labels)]
     if isinstance(e, A.MergeHeads):
@@ -1661,7 +1662,7 @@ def canon_labels(prog):
     out = []
     for p in prog:
         t = p[0]
-        if t in ("label", "goto", "merge", "begin", "end", "catch", "break", "continue"):
+        if t in ("label", "goto", "jump", "merge", "begin", "end", "catch", "break", "continue"):
             out.append([t, r(p[1])])
         elif t == "fork":
             out.append([t, r(p[1]), [r(x) for x in p[2]]])
@@ -1682,7 +1683,7 @@ def canon_full(prog):
     out = []
     for p in prog:
         t = p[0]
-        if t in ("label", "goto", "merge", "begin", "end", "catch", "break", "continue"):
+        if t in ("label", "goto", "jump", "merge", "begin", "end", "catch", "break", "continue"):
             out.append([t, r(p[1])])
         elif t == "fork":
             out.append([t, r(p[1]), [r(x) for x in p[2]]])
@@ -1795,7 +1796,7 @@ def signature(case, obs, msg):
 
 def _jumps(f):
     if "prog" in f:
-        return sum(1 for p in f["prog"] if p[0] in ("goto", "fork", "catch", "break", "continue", "merge", "begin"))
+        return sum(1 for p in f["prog"] if p[0] in ("goto", "jump", "fork", "catch", "break", "continue", "merge", "begin"))
     if "elems" in f:
         return sum(1 for e in f["elems"] if any(e[k] is not None for k in ("n", "e", "b", "c")) or e["h"])
     return 0
@@ -1838,7 +1839,7 @@ def tags(case, obs):
             if len(names) != len(set(names)):
                 t.append("v2:duplicate-labels(benign)")
             kinds = {p[0] for p in f["prog"]}
-            for k in ("fork", "begin", "catch", "break", "continue", "goto"):
+            for k in ("fork", "begin", "catch", "break", "continue", "goto", "jump"):
                 if k in kinds:
                     t.append("v2:has-" + k)
             if any(p[0] in ("break", "continue") and p[1] is None for p in f["prog"]):
